@@ -174,3 +174,48 @@ def run(ctx, R):
                         "a recording closure in %s returns `%s` instead of the item it received" % (m, why))
         if m != "resolve_starting_vertices":
             R.floor("r3", "output maps in %s" % m, n_maps, 1)
+    fifo_rule(ctx, R)
+
+
+# ---- r4: the replay readers hand back buffered input contexts in the order they were recorded (FIFO) -------------------
+FIFO = {("push_back", "pop_front"), ("push_front", "pop_back")}
+INSERT = {"push_back", "push_front", "push", "insert"}
+REMOVE = {"pop_front", "pop_back", "pop", "remove", "swap_remove"}
+
+
+def fifo_rule(ctx, R):
+    """A recorded adapter call may have several input contexts in flight (batching / prefetching adapters). The reader pairs
+    each recorded YieldFrom with a buffered input; the trace lists yields in input order, so the buffer must be a queue."""
+    C = ctx.core
+    R.rule("r4", "every replay reader buffers pending input contexts in a FIFO queue (insert at one end, remove at the other)")
+    DCP = DC + "<"
+    readers = 0
+    for adt in C.adts:
+        if not adt["path"].startswith("trustfall_core::interpreter::replay::"):
+            continue
+        for fl in adt["variants"][0]["fields"] if adt.get("variants") else []:
+            ty = fl.get("ty") or ""
+            if DCP not in ty or not ty.startswith(("alloc::collections::vec_deque::VecDeque<", "alloc::vec::Vec<", "alloc::collections::linked_list::LinkedList<")):
+                continue
+            readers += 1
+            ins, rem = set(), set()
+            where = C.loc(adt["sp"])
+            for f in C.fns:
+                if (f.get("self_ty") or "").split("<")[0] != adt["path"]:
+                    continue
+                for n in walk(f["body"]):
+                    if n.get("k") == "mcall":
+                        r = strip(n["recv"])
+                        if r.get("k") == "field" and r.get("name") == fl["name"] and r.get("adt") == adt["path"]:
+                            if n.get("name") in INSERT:
+                                ins.add(n["name"])
+                            elif n.get("name") in REMOVE:
+                                rem.add(n["name"])
+                                where = C.loc(n["sp"])
+            pairs = {(i, r) for i in ins for r in rem}
+            key = "%s.%s" % (adt["path"].split("::")[-1], fl["name"])
+            R.check(bool(pairs) and pairs <= FIFO, "r4", "fifo/%s" % key, where,
+                    "the replay reader %s buffers input contexts in `%s` with %s / %s: that is not first-in-first-out, so when the recorded "
+                    "adapter had two or more contexts in flight the recorded yields are paired with the wrong inputs and replay fails"
+                    % (adt["path"].split("::")[-1], fl["name"], sorted(ins), sorted(rem)), {"type": ty[:60]})
+    R.floor("r4", "replay readers with a pending-input buffer", readers, 3)
